@@ -87,7 +87,7 @@ PROP_RULES = {
     "C11": ["K", "D:ALT-LINEAR", "D:ALT-POS", "D:PFAIL", "MEMO-KEY", "MEMO-WRITERS", "GRAMMAR", "MODE-PAIR", "NO-BACKTRACK", "SUB-INPUT", "ERR-PROV", "PANIC-INV", "STATICS", "ORDER-ARMS", "MERGE-ARMS", "ERR-SPAN"],
     "C12": ["RECURSE", "ONCE", "CLONE-FIELDS", "K", "GRAMMAR", "MODE-PAIR", "HELPER-PROV", "OVERRIDE-INV", "PANIC-INV"],
     "C13": ["FREEZE", "STATICS", "OWN-STATE", "CLONE-FIELDS", "MODE-PAIR", "K", "NO-BACKTRACK", "HELPER-PROV", "OVERRIDE-INV", "CTOR-INV"],
-    "C14": ["CHAR-SIB", "CHAR-PROV", "REGEX-ANCHOR", "K", "HOOKS-TOKEN", "SEQ-PROV", "MODE-PURE", "GRAMMAR", "HELPER-PROV", "BUILDER-PROV"],
+    "C14": ["CHAR-SIB", "CHAR-PROV", "REGEX-ANCHOR", "K", "HOOKS-TOKEN", "SEQ-PROV", "MODE-PURE", "GRAMMAR", "HELPER-PROV", "BUILDER-PROV", "CLONE-FIELDS", "ENTRY", "ENTRY-SIB"],
     "C15": ["K", "SUB-INPUT", "MODE-PAIR", "BUILDER-PROV", "GRAMMAR", "HELPER-PROV"],
     "C16": ["K", "SUB-INPUT", "D:ALT-LINEAR", "D:PFAIL", "SPAN-PROV", "SPAN-EMPTY", "SPAN-IMPL", "READER-SIB", "GRAMMAR", "MODE-PAIR", "D:POISON*", "D:KEEP*", "D:LIFO*", "MODE-PURE", "ORDER-ARMS", "ERR-SPAN", "D:ALT-POS*", "MACRO-EXPAND"],
     "C17": ["K", "D:ALT-LINEAR", "D:ALT-POS", "ERR-SPAN", "MODE-PAIR", "GRAMMAR", "ERR-PROV", "NO-BACKTRACK", "HELPER-PROV", "ORDER-ARMS", "MERGE-ARMS"],
